@@ -153,6 +153,10 @@ def run_helpers(case, bus, ex):
         bus.tap("build_scaling_array")
         ref = ref_scaling(D, N, mode)
         ok = got.shape == ref.shape and np.array_equal(got, ref)
+        if D >= 2:      # "xy" only transposes the first two (equally long, equally treated) axes: the scaling array must coincide with the "ij" one and fit the rfft output
+            gxy = np.asarray(sp.build_scaling_array(D, N, mode=mode, indexing="xy"))
+            okxy = gxy.shape == ref.shape and np.array_equal(gxy, ref)
+            bus.judge("scaling_arrays", 0.0 if okxy else 1.0, 0.5, (D, N, mode, "xy"), witness=dict(D=D, N=N, mode=mode, indexing="xy", shape=list(gxy.shape)))
         bus.judge("scaling_arrays", 0.0 if ok else 1.0, 0.5, (D, N, mode), sample=dict(D=D, N=N, mode=mode),
                   witness=dict(D=D, N=N, mode=mode, shape=list(got.shape), nbad=int(np.sum(got != ref)) if got.shape == ref.shape else -1))
     u = G.random_state(rng, "white", 2, D, N)
